@@ -88,6 +88,7 @@ def gen(tier, rng):
     yield nodegen.restart_script(rng, "restart-dial-1", 1)
     yield nodegen.healing_script(rng, "heal-asym-12", 2, pt=60, chaos=100, asym=(1, 2))
     yield nodegen.stale_responder_script(rng, "stale-responder")
+    yield nodegen.half_open_script(rng, "half-open-60-900")        # the peer advertises a longer timeout than the node's own
     # "each opens what the other seals" also when no cipher was negotiated (both enabled plain)
     yield nodegen.plain_script(rng, "plain-pair", ["only", True], seconds=6)
     yield nodegen.plain_script(rng, "plain-all", [True, True, True], seconds=4)
